@@ -38,9 +38,9 @@ class InfiniteBatchSampler(BatchSampler):
                 yield batch
             epochs += 1
             if (
-                    (self.epochs is not None and epoch == self.epochs) or
-                    (self.updates is not None and update == self.updates) or
-                    (self.samples is not None and sample >= self.samples)
+                    (self.epochs is not None and epochs == self.epochs) or
+                    (self.updates is not None and updates >= self.updates) or
+                    (self.samples is not None and samples >= self.samples)
             ):
                 break
 
